@@ -656,6 +656,12 @@ def _all_args_compiled(chk):
                         return True
                     if isinstance(e, ast.Name):
                         defs = [a.value for a in ast.walk(f) if isinstance(a, ast.Assign) and len(a.targets) == 1 and norm(a.targets[0]) == e.id]
+                        # `params, data = trie.best_match(sig)`: the first component of the match is the per-argument signature
+                        for a in ast.walk(f):
+                            if isinstance(a, ast.Assign) and len(a.targets) == 1 and isinstance(a.targets[0], (ast.Tuple, ast.List)):
+                                names_ = [norm(x) for x in a.targets[0].elts]
+                                if e.id in names_:
+                                    defs.append(a.value if names_.index(e.id) == 0 else ast.Constant(value=None))
                         return len(defs) == 1 and per_argument(defs[0])
                     if isinstance(e, ast.Subscript):
                         return per_argument(e.value)
